@@ -1,9 +1,11 @@
 """C09 — iv_event_raw: posts from threads, signal handlers, children reach the owner.
 
 Anchors: the exported functions iv_event_raw_register / _unregister / _post (analysed with their
-static helpers inlined), the function registration installs as input handler of the read
-descriptor (whatever it is called), the members iv_event_raw.event_rfd / event_wfd, and the
-file-scope mode flag the functions branch on.  See h09.py for the analyses.
+helpers inlined), the function(s) registration installs as input handler of the read
+descriptor (whatever they are called; one, or one per mode), the members iv_event_raw.event_rfd /
+event_wfd, and the mode flag = the one mutable file-scope object the functions' behaviour depends
+on (a variable or a member of a file-scope struct; read directly, through accessors, or used as
+index of constant tables).  See h09.py for the analyses.
 """
 from ..core import AnalysisBroken, relpath, must_pass
 from ..analyses import callback_kind
@@ -37,26 +39,103 @@ def _roles(ctx):
     post = prog.fn('iv_event_raw_post')
     R = h09.inl(prog, reg)
     hs = h09.handler_of(prog, reg, R)
-    if len(hs) != 1:
-        raise AnalysisBroken('raw event: %d functions installed as input handler of the read descriptor by registration' % len(hs))
+    if not hs:
+        raise AnalysisBroken('raw event: no function installed as input handler of the read descriptor by registration')
+    # one handler, or one per mode (chosen by registration): every one of them is the "handler" role
     c = {'register': (reg, R), 'unregister': (unreg, h09.inl(prog, unreg)), 'post': (post, h09.inl(prog, post)),
-         'handler': (hs[0], h09.inl(prog, hs[0]))}
+         'handlers': [(h, h09.inl(prog, h)) for h in hs]}
     prog.__dict__['_c09_roles'] = c
     return c
 
 
+def _role_funcs(ro):
+    return [ro['register'], ro['unregister'], ro['post']] + list(ro['handlers'])
+
+
 def _the_flag(ctx):
-    """The mode flag: the one file-scope variable the post function discriminates on."""
+    """The mode flag: the one mutable file-scope object the post function's behaviour depends on."""
     ro = _roles(ctx)
-    fl = h09.flags_read(ro['post'][1])
+    prog = ctx.prog
+    fl = h09.flags_read(prog, prog.unit_of(ro['post'][0]), ro['post'][1])
     if len(fl) != 1:
-        # fall back to the flag common to all four roles
-        sets = [h09.flags_read(g) for (_, g) in ro.values()]
+        # fall back to the flag common to all roles
+        sets = [h09.flags_read(prog, prog.unit_of(f), g) for (f, g) in _role_funcs(ro)]
         common = set.intersection(*sets) if sets else set()
         if len(common) != 1:
             raise AnalysisBroken('raw event: mode flag not identified (post reads %s)' % sorted(fl))
         fl = common
     return sorted(fl)[0]
+
+
+def _registration(ctx):
+    """Success paths of (inlined) registration, symbolically executed (cached)."""
+    prog = ctx.prog
+    c = prog.__dict__.get('_c09_regpaths')
+    if c is not None:
+        return c
+    reg, R = _roles(ctx)['register']
+    paths = h09.SymExec(R, prog=prog, unit=prog.unit_of(reg)).run()
+    succ = []
+    for p in paths:
+        if p.end and p.end[0] == 'ret' and p.result is not None:
+            c = p.const_of(p.result)
+            if c is None:
+                lo, hi, ne = p.bounds(p.result[1]) if p.result[0] in ('s', 'neg') else (0, 0, ())
+                if lo > 0 or hi < 0 or 0 in ne:
+                    continue
+            elif c != 0:
+                continue
+            succ.append(p)
+    if not succ:
+        raise AnalysisBroken('iv_event_raw_register: no success path found')
+    prog.__dict__['_c09_regpaths'] = succ
+    return succ
+
+
+def _this_key(ctx, p, store, path):
+    reg, R = _roles(ctx)['register']
+    this = reg.params[0]['name'] if reg.params else None
+    if this is None:
+        raise AnalysisBroken('iv_event_raw_register has no parameter')
+    tv = store.get(this)
+    return '%s->%s' % (h09.SymExec(R).vrepr(tv), path) if tv is not None else None
+
+
+def _registered(ctx, p):
+    """(snapshot of the store at the call, key of the object) of the iv_fd_register(&this->event_rfd) calls of a path"""
+    out = []
+    for c in p.calls:
+        if c['callee'] == 'iv_fd_register' and c['args'] and c['args'][0][0] == 'addr' \
+                and c['args'][0][1] == _this_key(ctx, p, p.store, 'event_rfd'):
+            out.append((c['store'], c['args'][0][1]))
+    return out
+
+
+def _flag_values(p, flag, dom):
+    """values of the flag possible at the end of the path"""
+    fv = p.store.get(flag)
+    if fv is None:
+        return set(dom)
+    fc = p.const_of(fv)
+    if fc is not None:
+        return {fc}
+    if fv[0] in ('s', 'neg'):
+        lo, hi, ne = p.bounds(fv[1])
+        sg = 1 if fv[0] == 's' else -1
+        return {v for v in dom if lo <= sg * v <= hi and sg * v not in ne}
+    return set(dom)
+
+
+def _installed(ctx, flag, dom):
+    """{handler name: flag values with which registration can return success having registered the read
+    descriptor with that handler}"""
+    out = {}
+    for p in _registration(ctx):
+        for (st, k) in _registered(ctx, p):
+            hv = st.get(k + '.handler_in')
+            if hv is not None and hv[0] == 'fn':
+                out.setdefault(hv[1], set()).update(_flag_values(p, flag, dom))
+    return out
 
 
 def _by_loc(events):
@@ -75,8 +154,11 @@ def _exit_states(G, ev_in):
 # --------------------------------------------------------------------------
 
 def drain(ctx):
-    ro = _roles(ctx)
-    h, H = ro['handler']
+    for (h, H) in _roles(ctx)['handlers']:
+        _drain1(ctx, h, H)
+
+
+def _drain1(ctx, h, H):
     is_src = lambda e: e['ev'] == 'call' and e.get('callee') == 'read'
     is_sink = lambda e: callback_kind(e) == ('callback', 'event_raw') or h09.is_user_handler_call(H, e)
     sites = [e for e in H.events() if is_sink(e)]
@@ -165,25 +247,12 @@ def nonblock(ctx):
     prog = ctx.prog
     ro = _roles(ctx)
     reg, R = ro['register']
-    h = ro['handler'][0]
+    hnames = {h.name for (h, _) in ro['handlers']}
     flag = _the_flag(ctx)
     this = reg.params[0]['name'] if reg.params else None
     if this is None:
         raise AnalysisBroken('iv_event_raw_register has no parameter')
-    paths = h09.SymExec(R).run()
-    succ = []
-    for p in paths:
-        if p.end and p.end[0] == 'ret' and p.result is not None:
-            c = p.const_of(p.result)
-            if c is None:
-                lo, hi, ne = p.bounds(p.result[1]) if p.result[0] in ('s', 'neg') else (0, 0, ())
-                if lo > 0 or hi < 0 or 0 in ne:
-                    continue
-            elif c != 0:
-                continue
-            succ.append(p)
-    if not succ:
-        raise AnalysisBroken('iv_event_raw_register: no success path found')
+    succ = _registration(ctx)
 
     sx = h09.SymExec(R)
 
@@ -221,7 +290,7 @@ def nonblock(ctx):
                 hv = c['store'].get(k + '.handler_in')
                 later = p.store.get(k + '.fd')
                 Rv = fdv
-                if fdv is not None and hv == ('fn', h.name) and _label(p, fdv) and _label(p, fdv)[0] in ('pipe', 'call') \
+                if fdv is not None and hv is not None and hv[0] == 'fn' and hv[1] in hnames and _label(p, fdv) and _label(p, fdv)[0] in ('pipe', 'call') \
                         and (later is None or later == fdv):
                     okreg = True
         if not okreg:
@@ -246,7 +315,7 @@ def nonblock(ctx):
                   'and that descriptor is the result of a call' + first(res['same']), fn=reg.q)
     ctx.ob('R-C09b', 'register:read-end-registered', not res['reg'], loc=reg.loc,
            detail='on every success path iv_fd_register(&event_rfd) ran with event_rfd.fd = the read descriptor and handler_in = %s '
-                  '(registration sets O_NONBLOCK)' % h.name + first(res['reg']), fn=reg.q)
+                  '(registration sets O_NONBLOCK)' % '/'.join(sorted(hnames)) + first(res['reg']), fn=reg.q)
     ctx.ob('R-C09b', 'register:write-end-is-fd[1]', n_pipe > 0 and not res['pipe1'], loc=reg.loc,
            detail='on every success path that ends in pipe mode event_wfd is element 1 and event_rfd.fd element 0 of the array filled by one pipe() call'
                   + first(res['pipe1']), fn=reg.q)
@@ -294,45 +363,64 @@ def modes(ctx):
     ro = _roles(ctx)
     flag = _the_flag(ctx)
     unit = prog.unit_of(ro['post'][0])
-    for role in ('handler', 'register', 'unregister', 'post'):
-        f, G = ro[role]
-        fl = h09.flags_read(G)
+    dom = h09.flag_domain(prog, unit, flag)
+    several = len(ro['handlers']) > 1
+    inst_modes = _installed(ctx, flag, dom) if several else {}
+    roles = [('handler', f, G) for (f, G) in ro['handlers']] + [(r, ) + ro[r] for r in ('register', 'unregister', 'post')]
+    for (role, f, G) in roles:
+        fl = h09.flags_read(prog, prog.unit_of(f), G)
         inst = 'handler:mode-flag' if role == 'handler' else '%s:mode-flag' % f.name
         wr = role != 'register' and h09.flag_written(G, flag)
-        ctx.ob('R-C09c', inst, fl == {flag} and not wr, loc=f.loc,
-               detail='mode discriminators read: %s (the post function reads %s)%s' % (sorted(fl), flag, '; writes the flag' if wr else ''), fn=f.q)
-    dom = h09.flag_domain(prog, unit, flag)
+        ok = fl == {flag}
+        note = ''
+        if role == 'handler' and several:
+            # a handler that registration installs for some of the modes only was selected by the flag; it need not test it again
+            im = inst_modes.get(f.name, set())
+            ok = fl <= {flag} and (fl == {flag} or (bool(im) and im < set(dom)))
+            note = '; installed by registration when %s is in %s' % (flag, sorted(im))
+        ctx.ob('R-C09c', inst, ok and not wr, loc=f.loc,
+               detail='mode discriminators read: %s (the post function reads %s)%s%s' % (sorted(fl), flag, '; writes the flag' if wr else '', note), fn=f.q)
 
     # ---- sizes of the read (handler) and of the write (post) per mode
-    def sizes(role, callee, inst, pipe_min):
-        f, G = ro[role]
-        if h09.flag_written(G, flag):
-            raise AnalysisBroken('%s writes the mode flag' % f.name)
-        evs = [e for e in G.events() if e['ev'] == 'call' and e.get('callee') == callee and len(e.get('args', [])) >= 3]
-        if not evs:
-            raise AnalysisBroken('%s: %s not found' % (f.name, callee))
-        seen = {}
-        for v in dom:
-            g, asg = h09.specialise(G, flag, v)
-            envs = h09.const_envs(g, asg)
-            live = {id(e) for e in h09.reachable_events(g)}
-            for e in evs:
-                if id(e) not in live:
-                    continue
-                n = h09.value_at(envs, asg, e, e['args'][2])
-                seen.setdefault(e['loc'], []).append((v, n))
-        if not seen:
-            raise AnalysisBroken('%s: no %s reachable under any mode' % (f.name, callee))
-        reached = {v for l in seen.values() for (v, n) in l}
-        for loc, l in sorted(seen.items()):
-            ok = all(n is not None and (n == 8 if v != 0 else n >= pipe_min) for (v, n) in l)
-            ctx.ob('R-C09c', inst, ok, loc=loc,
-                   detail='%s size per value of %s: %s (must be exactly 8 when the flag is non-zero: eventfd; at least %d in pipe mode)'
-                          % (callee, flag, ', '.join('%s -> %s' % (v, n) for (v, n) in l), pipe_min), fn=f.q)
-        ctx.ob('R-C09c', inst + ':every-mode', reached == set(dom), loc=f.loc,
-               detail='a %s of the event descriptor is reachable for every value of %s (%s)' % (callee, flag, sorted(reached)), fn=f.q)
-    sizes('handler', 'read', 'handler:read-size', 8)
-    sizes('post', 'write', 'post:write-size', 1)
+    def sizes(fgs, callee, inst, pipe_min):
+        reached = set()
+        for (f, G, values) in fgs:
+            if h09.flag_written(G, flag):
+                raise AnalysisBroken('%s writes the mode flag' % f.name)
+            evs = [e for e in G.events() if e['ev'] == 'call' and e.get('callee') == callee and len(e.get('args', [])) >= 3]
+            if not evs:
+                raise AnalysisBroken('%s: %s not found' % (f.name, callee))
+            if not values:
+                raise AnalysisBroken('%s: no mode in which it is used' % f.name)
+            seen = {}
+            for v in sorted(values):
+                g, asg = h09.specialise(G, flag, v, prog, unit)
+                envs = h09.const_envs(g, asg, prog, unit)
+                live = {id(e) for e in h09.reachable_events(g)}
+                for e in evs:
+                    if id(e) not in live:
+                        continue
+                    n = h09.value_at(envs, asg, e, e['args'][2], prog, unit, G)
+                    seen.setdefault(e['loc'], []).append((v, n))
+            if not seen:
+                raise AnalysisBroken('%s: no %s reachable under any mode' % (f.name, callee))
+            mine = {v for l in seen.values() for (v, n) in l}
+            reached |= mine
+            for loc, l in sorted(seen.items()):
+                ok = all(n is not None and (n == 8 if v != 0 else n >= pipe_min) for (v, n) in l)
+                ctx.ob('R-C09c', inst, ok, loc=loc,
+                       detail='%s size per value of %s: %s (must be exactly 8 when the flag is non-zero: eventfd; at least %d in pipe mode)'
+                              % (callee, flag, ', '.join('%s -> %s' % (v, n) for (v, n) in l), pipe_min), fn=f.q)
+            if len(fgs) > 1:
+                ctx.ob('R-C09c', inst + ':every-mode', mine == set(values), loc=f.loc,
+                       detail='a %s of the event descriptor is reachable for every value of %s with which %s is in use (%s of %s)'
+                              % (callee, flag, f.name, sorted(mine), sorted(values)), fn=f.q)
+        f0 = fgs[0][0]
+        ctx.ob('R-C09c', inst + ':every-mode', reached == set(dom), loc=f0.loc if len(fgs) == 1 else ro['register'][0].loc,
+               detail='a %s of the event descriptor is reachable for every value of %s (%s)' % (callee, flag, sorted(reached)),
+               fn=f0.q if len(fgs) == 1 else ro['register'][0].q)
+    sizes([(f, G, inst_modes.get(f.name, set()) if several else set(dom)) for (f, G) in ro['handlers']], 'read', 'handler:read-size', 8)
+    sizes([ro['post'] + (set(dom),)], 'write', 'post:write-size', 1)
 
     # ---- unregister
     u, U = ro['unregister']
@@ -344,7 +432,7 @@ def modes(ctx):
     okw, okr = True, True
     why = []
     for v in dom:
-        g, asg = h09.specialise(U, flag, v)
+        g, asg = h09.specialise(U, flag, v, prog, unit)
         live = {id(e) for e in h09.reachable_events(g)}
         mpw = must_pass(g, lambda e: any(e is x for x in clw)).get((g.exit, 0))
         if v == 0 and not mpw:
